@@ -85,14 +85,37 @@ func (m SliceDotsMatcher) Match(got reflect.Value, d data.Data, r Region) (data.
 		return d, false
 	}
 
-	for i, section := range m.Sections[1:] {
-		idx, d, ok = findSection(m.Dots[i], section, gotItems, d, r, idx)
+	return m.matchSections(1, gotItems, d, r, idx)
+}
+
+// matchSections matches m.Sections[si:] against got[idx:]. Each section is
+// tried at successive positions, shortest skipped run first; if the
+// sections after it cannot be matched from there, the next position is
+// tried.
+func (m SliceDotsMatcher) matchSections(si int, got []reflect.Value, d data.Data, r Region, idx int) (data.Data, bool) {
+	if si == len(m.Sections) {
+		return d, idx == len(got)
+	}
+
+	dots, want := m.Dots[si-1], m.Sections[si]
+	if len(want) == 0 && si == len(m.Sections)-1 {
+		// "..." at the end of the list. Skip everything left in got.
+		sr := sectionRegion(got, r, idx, len(got))
+		return pushSliceDotsSkipped(d, dots, got[idx:], sr), true
+	}
+
+	for i := idx; i+len(want) <= len(got); i++ {
+		sr := sectionRegion(got, r, idx, i)
+		newIdx, newD, ok := matchPrefix(want, got, pushSliceDotsSkipped(d, dots, got[idx:i], sr), sr, i)
 		if !ok {
-			return d, false
+			continue
+		}
+		if newD, ok = m.matchSections(si+1, got, newD, r, newIdx); ok {
+			return newD, true
 		}
 	}
 
-	return d, idx == len(gotItems)
+	return d, false
 }
 
 // Returns Region for items[start:end].
@@ -126,32 +149,6 @@ func matchPrefix(want []Matcher, got []reflect.Value, d data.Data, r Region, idx
 	}
 
 	return idx + len(want), d, true
-}
-
-// findSection attempts to match want starting at got[idx], moving onto idx+1,
-// idx+2, and so on until a match is found. Returns the new index for the
-// remaining matches.
-//
-// Invariant: If ok is true, a list of skipped items will have been pushed to
-// Data.
-func findSection(dots token.Pos, want []Matcher, got []reflect.Value, d data.Data, r Region, idx int) (newIdx int, _ data.Data, ok bool) {
-	// Special case: Looking for "..." at the end of the list. Skip everything
-	// in got.
-	if len(want) == 0 {
-		r := sectionRegion(got, r, idx, len(got))
-		d := pushSliceDotsSkipped(d, dots, got[idx:], r)
-		return matchPrefix(want, got, d, r, len(got))
-	}
-
-	for i := idx; i < len(got); i++ {
-		r := sectionRegion(got, r, idx, i)
-		newIdx, newD, ok := matchPrefix(want, got, pushSliceDotsSkipped(d, dots, got[idx:i], r), r, i)
-		if ok {
-			return newIdx, newD, ok
-		}
-	}
-
-	return idx, d, false
 }
 
 // SliceDotsReplacer replaces target nodes and reproduces the values captured by
